@@ -56,6 +56,9 @@ def main():
         files += pipeline.repo_programs() + pipeline.corpus_programs("sem") + pipeline.corpus_programs("fun2core")[:: (3 if quick else 1)]
         files += [f for f, _ in stagecheck.inputs(chk, 40 if quick else 1000) if "/gen_C01/" in f]
         drivers = {}
+        links = {}
+        link_fail = []
+        e2e_n = 0
         for path in files:
             st = lad.stages(path)
             if st is None or "S7x" not in st or st["S7x"][0] != "OK":
@@ -63,6 +66,21 @@ def main():
             np_ = stagecheck.main_params(st)
             if np_ is None or np_ > 5:
                 continue
+            # --- tie of the COMPOSED model (Scc/Pipeline.lean, the object of C01_composition) with the real compiler:
+            #     S1 dump -> x86-64 routine text must be the implementation's text (labels canonicalised)
+            mo = lad.ask("pipeline %s 1 0" % lad.dump(st, "S1"))
+            chk.corr["compared"] += 1
+            tn = common.mangled_type_names(st["S5"][1]) if "S5" in st and st["S5"][0] == "OK" else set()
+            mod_text = mo.split("\n", 1)[1] if mo and mo.startswith("OK ") and "\n" in mo else (mo or "")
+            if common.canon_labels(st["S7x"][1], tn) != common.canon_labels(mod_text, tn):
+                if lad.ask("typ labelsafe %s" % lad.dump(st, "S5")) != "OK false":
+                    chk.corr["disagreements"] += 1
+                    chk.model_disagreements.append({"file": path, "pass": "pipeline(S1->x86 text)", "model": (mo or "")[:200]})
+            # --- decidable content of the hypotheses of C01_composition (links) on this program
+            ln = lad.ask("links %s" % path)
+            links["OK" if ln and ln.startswith("OK") else (ln or "none").split(" ")[0]] = links.get("OK" if ln and ln.startswith("OK") else (ln or "none").split(" ")[0], 0) + 1
+            if ln and ln.startswith("FAIL"):
+                link_fail.append({"file": path, "links": ln[:200]})
             okA, msg, obj = native.assemble_x86(st["S7x"][1], d)
             if not okA:
                 found = True
@@ -93,12 +111,29 @@ def main():
                     chk.impl_oracle_failures.append({"file": path, "args": args, "expected": [exp_out.decode(errors="replace")[:80], exp_status], "got": [got_out.decode(errors="replace")[:80], got_status]})
                     chk.violation("C01:native-differs", "%s args %s: native stdout/status %r/%s, source semantics (%s machine) %r/%s" % (os.path.basename(path), args, got_out[:60], got_status, ref_mach, exp_out[:60], exp_status),
                                   "native_%s.txt" % os.path.basename(path), "file=%s\nargs=%s\nreference=%s\nexpected_stdout=%r\nexpected_status=%d\nnative_stdout=%r\nnative_status=%s\nsource:\n%s\n" % (path, args, ref_mach, exp_out, exp_status, got_out, got_status, open(path).read()))
+                # --- model-only instance of C01_statement on a sample: source run = x86 machine run = native rendering
+                if e2e_n < (25 if quick else 400) and "/gen_C01/" not in path or e2e_n < 5:
+                    e2e_n += 1
+                    el = lad.ask("e2e %s %s %d %d" % (path, ",".join(str(x) for x in args) if args else "-", lad.fuel, lad.asm_fuel))
+                    mm = __import__("re").match(r"SRC (.*) X86 (.*) NATIVE (.*)$", el or "", __import__("re").S)
+                    chk.corr["compared"] += 1
+                    if not mm or mm.group(1).strip() != mm.group(2).strip():
+                        if not (mm and "outOfFuel" in mm.group(2)):
+                            chk.corr["disagreements"] += 1
+                            chk.model_disagreements.append({"file": path, "args": args, "pass": "e2e(model only)", "model": (el or "")[:300]})
                 chk.sample({"file": os.path.basename(path), "args": args, "stdout": exp_out.decode(errors="replace")[:60], "status": exp_status}, limit=4)
         lad.close()
         shutil.rmtree(os.path.join(common.WORK, "target_scc"), ignore_errors=True)
+    if ok_h and okm:
+        chk.notes["links_histogram"] = links
+        chk.obligation("links:hypotheses of C01_composition hold on every accepted program of the run (decidable content)", "correspondence", not link_fail, json.dumps(link_fail[:3])[:400])
+        chk.obligation("corr:composed model (Scc.Pipeline) vs real compiler, S1 -> x86-64 text; model-only end-to-end instances", "correspondence", chk.corr["disagreements"] == 0, "%d compared, %d disagreements" % (chk.corr["compared"], chk.corr["disagreements"]))
+        if link_fail or chk.corr["disagreements"]:
+            proofs_ok = False
+            plog += json.dumps(link_fail[:5]) + json.dumps(chk.model_disagreements[:5])
     if not proofs_ok and not found:
         what = [("%s (%s): %s" % (n, r, dd)) for n, r, ok, dd in chk.obligations if not ok]
-        chk.violation("C01:unproved", "proof obligations broken, no failing run found: " + "; ".join(what)[:600], "unproved.txt", "\n".join(what) + "\n" + plog[-3000:], found_input=False)
+        chk.violation("C01:unproved", "proof obligations, links or correspondence broken, no failing run found: " + "; ".join(what)[:600], "unproved.txt", "\n".join(what) + "\n" + plog[-3000:], found_input=False)
     return chk.finish()
 
 
